@@ -33,6 +33,7 @@ type healthScen struct {
 	Interval int    `json:"interval"`
 	Policy   string `json:"policy"`
 	HPort    bool   `json:"hport"`  // active checks go to a separate health port
+	Form     string `json:"form"`   // kind "fresh": how the dial address is written ("plain" host:port, "net" tcp/host:port)
 	DefInt   bool   `json:"defint"` // no interval configured (documented default 30 s): only the check made at once is observed
 }
 
@@ -352,6 +353,24 @@ func runHealth(sc healthScen, idx int) (map[string]any, error) {
 			pol = "first"
 		}
 		cfg := map[string]any{"upstreams": upcfg, "load_balancing": map[string]any{"selection": map[string]any{"policy": pol}}}
+		settle := 40
+		if sc.Via == "deadfirst" {
+			// an upstream that refuses every dial is listed BEFORE the serving one (which has max_connections): the first
+			// connection's dial to it fails and is remembered (max_fails 1), every connection is retried every 40 ms for
+			// 300 ms - "refused only when every upstream is at its limit" (L2) then speaks about the serving upstream
+			rp, err := newRefusedPort()
+			if err != nil {
+				return nil, err
+			}
+			defer rp.Close()
+			for _, uc := range upcfg {
+				uc["max_connections"] = sc.Max
+			}
+			cfg["upstreams"] = append([]map[string]any{{"dial": []string{rp.Addr()}}}, upcfg...)
+			cfg["load_balancing"] = map[string]any{"selection": map[string]any{"policy": pol}, "try_duration": int64(ms(300)), "try_interval": int64(ms(40))}
+			cfg["health_checks"] = map[string]any{"passive": map[string]any{"max_fails": 1, "fail_duration": int64(ms(20000))}}
+			settle = 420 // nobody opens or closes while a connection is still being retried
+		}
 		if sc.Via == "unhealthy_connection_count" {
 			cfg["health_checks"] = map[string]any{"passive": map[string]any{"unhealthy_connection_count": sc.Max}}
 		}
@@ -381,7 +400,7 @@ func runHealth(sc healthScen, idx int) (map[string]any, error) {
 				b.Close()
 			}()
 			go a.Write([]byte{byte(id), 0, 0, 0})
-			time.Sleep(ms(40))
+			time.Sleep(ms(settle))
 		}
 		closeC := func(id int) {
 			clients[id].c.Close()
@@ -416,6 +435,9 @@ func runHealth(sc healthScen, idx int) (map[string]any, error) {
 		time.Sleep(ms(10))
 		{
 			_, c, _ := l4proxy.VerifHandlerCounters(h)
+			if sc.Via == "deadfirst" {
+				c = c[1:] // the refusing upstream never had a connection to count
+			}
 			rec.Add(vh.Ev{"e": "CSample", "conns": c})
 		}
 		ev := []vh.Ev{}
@@ -426,6 +448,56 @@ func runHealth(sc healthScen, idx int) (map[string]any, error) {
 			}
 		}
 		out["max"], out["nups"], out["tol"], out["ev"] = sc.Max, sc.Ups, 0, ev
+		return out, nil
+
+	case "fresh":
+		// a handler WITH active checks marks a refusing peer down and is unloaded (nobody uses the peer any more); the
+		// backend starts accepting; a handler WITHOUT health checks is loaded for the same dial address: it starts with a
+		// peer that has no remembered failure, no connection and no verdict against it - and serves
+		rp, err := newRefusedPort()
+		if err != nil {
+			return nil, err
+		}
+		defer rp.Close()
+		dial := rp.Addr()
+		if sc.Form == "net" {
+			dial = "tcp/" + dial
+		}
+		h1, done1, err := provisionProxy(map[string]any{
+			"upstreams":     []map[string]any{{"dial": []string{dial}}},
+			"health_checks": map[string]any{"active": map[string]any{"interval": int64(ms(40)), "timeout": int64(ms(200))}},
+		})
+		if err != nil {
+			return nil, err
+		}
+		time.Sleep(ms(250))
+		_, _, uh := l4proxy.VerifHandlerCounters(h1)
+		rec.Add(vh.Ev{"e": "Marked", "unhealthy": uh[0][0]})
+		done1()
+		time.Sleep(ms(100)) // a check that was under way has ended
+		if err := rp.Up(); err != nil {
+			return nil, err
+		}
+		h2, done2, err := provisionProxy(map[string]any{"upstreams": []map[string]any{{"dial": []string{dial}}}})
+		if err != nil {
+			return nil, err
+		}
+		defer done2()
+		f2, c2, u2 := l4proxy.VerifHandlerCounters(h2)
+		herr := h2.Handle(dummyConn(1), nil)
+		errs := ""
+		if herr != nil {
+			errs = herr.Error()
+		}
+		rec.Add(vh.Ev{"e": "Fresh", "unhealthy": u2[0][0], "fails": f2[0][0], "conns": c2[0][0], "served": herr == nil, "err": errs})
+		ev := []vh.Ev{}
+		for _, e := range rec.Snapshot() {
+			switch e["e"] {
+			case "Marked", "Fresh":
+				ev = append(ev, e)
+			}
+		}
+		out["ev"] = ev
 		return out, nil
 
 	case "active":
